@@ -124,6 +124,7 @@ def locate(src, path):
                 continue
             sub = search(depth + 1, found["brace"] + 1, src.pairs[found["brace"]])
             if sub is not None:
+                sub.setdefault("parents", []).insert(0, found)
                 return sub
         return None
 
